@@ -15,6 +15,7 @@ import (
 	"strings"
 	"time"
 
+	goheader "github.com/celestiaorg/go-header"
 	logging "github.com/ipfs/go-log/v2"
 	"github.com/libp2p/go-libp2p/core/crypto"
 
@@ -78,6 +79,9 @@ type Options struct {
 	Exec          *hx.Exec
 	Seq           *hx.Seq
 	KeySeed       byte // signing key of an aggregator (default 1)
+	// HeaderStore / DataStore: go-header stores polled by the P2P store loops (default nil)
+	HeaderStore goheader.Store[*types.SignedHeader]
+	DataStore   goheader.Store[*types.Data]
 	// CustomPayload: use a non-default signature payload provider (header bytes + a suffix)
 	CustomPayload bool
 	// MakeSeq builds the sequencing layer on the node's datastore (default: the scripted double)
@@ -165,7 +169,7 @@ func New(o Options) (*Env, error) {
 	if o.CustomPayload {
 		mo.SignaturePayloadProvider = CustomPayloadProvider
 	}
-	m, err := block.NewManager(context.Background(), sg, cfg, e.Gen, e.Store, e.Exec, sq, e.DA, logging.Logger("verif"), nil, nil,
+	m, err := block.NewManager(context.Background(), sg, cfg, e.Gen, e.Store, e.Exec, sq, e.DA, logging.Logger("verif"), o.HeaderStore, o.DataStore,
 		e.HB, e.DB, block.NopMetrics(), -1, 0, mo)
 	if err != nil {
 		return e, err
